@@ -42,6 +42,20 @@ chk("C20", "proof",
     COMMON_NOTE + "Cryptographic primitives idealised (Section variables); sign/verify and encrypt/decrypt round trips are tested on the implementation, not proved; AEAD nonce reuse is a recorded known finding.",
     "Coq framing/decision model + correspondence on intercepted hash inputs and nonces + byte-flip oracle", "DESIGN.md §5 C20, docs/C20.md")
 
+chk("C02", "proof",
+    "Coq proof (no axioms) about an executable model of TMCG_MixStack (double indexing modelled literally), TMCG_GlueStackSecret, the Fisher-Yates / rotation generators of TMCG_CreateStackSecret and the "
+    "import check: size and i-th card, multiset of types preserved, composition law mix(mix s sigma) pi = mix s (glue sigma pi), generated secrets are bijections / cyclic shifts with exactly the reported "
+    "offset for every coin list, import accepts exactly bijections; tied to the code by exhaustive small-n (all coin vectors, all n^n index vectors) and sampled correspondence on real VTMF groups.",
+    COMMON_NOTE + "mask/open enter as arbitrary functions with premises open(mask c r)=open c (C01) and the homomorphism law (proved for both encodings); QR-encoded stacks are checked by implementation-level oracles only.",
+    "Coq permutation/composition theorems + extraction-based correspondence with scripted libgcrypt randomness", "DESIGN.md §5 C02, docs/C02.md")
+chk("C07", "proof",
+    "Coq proof (no axioms), uniformity as exact counting: for every modulus 2 <= m < 2^64 the bounded sampler accepts exactly the words below floor(2^64/m)*m and every residue has exactly floor(2^64/m) "
+    "accepted words (machine arithmetic mod 2^64 written out, incl. the power-of-two wrap); the Fisher-Yates map from the n! admissible coin vectors to index vectors is a bijection onto the permutations of 0..n-1; "
+    "rotation offsets are a bijection of [0,n); the residue sampler is always in range and within 2^-64 of uniform. The model is compared with the real samplers under interposed randomness (boundary words), "
+    "incl. an exact-distribution sweep of all coin vectors for n <= 6 (7 thorough) through the real TMCG_CreateStackSecret.",
+    COMMON_NOTE + "Uniform and independent libgcrypt bytes are assumed; distribution statements are counting statements about coins -> result.",
+    "Coq counting/bijection theorems + extraction-based correspondence with interposed libgcrypt randomness", "DESIGN.md §5 C07, docs/C07.md")
+
 NOT_YET = {}
 ALL = ["C%02d" % i for i in range(1, 21)]
 for p in ALL:
